@@ -10,15 +10,18 @@ import (
 	"context"
 	"fmt"
 	"regexp"
+	"runtime"
 	"sort"
 	"strings"
 	"sync"
+	"sync/atomic"
 	"testing"
 	"time"
 
 	log "github.com/hashicorp/go-hclog"
 	"github.com/openbao/openbao/sdk/v2/helper/verif/physx"
 	"github.com/openbao/openbao/sdk/v2/helper/verif/sched"
+	"github.com/openbao/openbao/sdk/v2/helper/verif/vstmt"
 	"github.com/openbao/openbao/sdk/v2/logical"
 	"github.com/openbao/openbao/sdk/v2/physical"
 	"github.com/openbao/openbao/sdk/v2/physical/inmem"
@@ -129,6 +132,22 @@ func unsealAny(c *vault.Core, opt Options, keys [][]byte) error {
 		return fmt.Errorf("core still sealed after supplying all shares")
 	}
 	return nil
+}
+
+// The production expiry strategy (queue the lease for the revocation workers) must never
+// run in these harnesses: between unseal and the installation of the recorder a timer of an
+// already expired lease could fire and start an asynchronous revocation that races with the
+// harness.  The overlay instruments the strategy's first statement (tools/stmtpoints); the
+// hook ends the goroutine of the timer there.  Due leases are revoked by Sys.Drain.
+var strategyCutOff atomic.Int64
+
+func init() {
+	vstmt.Set(func(label string) {
+		if label == "expireLeaseStrategyFairsharing#0" {
+			strategyCutOff.Add(1)
+			runtime.Goexit()
+		}
+	})
 }
 
 // Build creates and initialises a brand-new system.
